@@ -430,7 +430,8 @@ def process(ck, case):
 
 # --------------------------------------------------------------------------- (B)
 
-def process_families(ck, rng, n):
+def process_families(ck, sub_seed, n):
+    rng = np.random.default_rng(sub_seed)
     from virocon import (DependenceFunction, ExponentiatedWeibullDistribution, GlobalHierarchicalModel,
                          LogNormalDistribution, WeibullDistribution, WidthOfIntervalSlicer, NumberOfIntervalsSlicer)
 
@@ -455,8 +456,14 @@ def process_families(ck, rng, n):
              "parameters": {"mu": DependenceFunction(models._lnsquare2, bounds=[(0, None), (0, None)]),
                             "sigma": DependenceFunction(models._asym3, bounds=[(0, None), (0, None), (None, None)])}}])
 
-    fd = [{"method": "wlsq", "weights": "quadratic"} if use_ew else {"method": "mle"}, None]
-    case = {"part": "B", "n": n, "ew": use_ew, "slicer": slicer_cfg}
+    # one weight per observation (travels with its row when the rows are permuted); with rounded data the ties
+    # carry different weights
+    w_arr = rng.uniform(0.5, 2.0, len(data)) if use_ew and rng.integers(0, 2) else None
+    fd = [{"method": "wlsq", "weights": "quadratic" if w_arr is None else w_arr} if use_ew else {"method": "mle"}, None]
+    case = {"part": "B", "n": n, "ew": use_ew, "slicer": slicer_cfg, "sub_seed": int(sub_seed),
+            "weights": "quadratic" if w_arr is None else "array"}
+    if w_arr is not None:
+        ck.count("B_array_weights")
     ck.case(case, nontrivial=True, sample=False)
     ck.count("part=B")
     with warnings.catch_warnings():
@@ -485,7 +492,10 @@ def process_families(ck, rng, n):
                 break
         perm = rng.permutation(len(data))
         m2 = build()
-        m2.fit(data[perm], fit_descriptions=copy.deepcopy(fd))
+        fd2 = copy.deepcopy(fd)
+        if w_arr is not None:
+            fd2[0]["weights"] = w_arr[perm]
+        m2.fit(data[perm], fit_descriptions=fd2)
         for i in range(2):
             a, b = m1.distributions[i], m2.distributions[i]
             if i == 0:
@@ -525,14 +535,16 @@ def main(ck):
                   "summation and optimiser noise; compared with rtol 1e-6 / 1e-5 at runtime"}
     for case in gen_cases(rng, 1500 if thorough else 150):
         process(ck, case)
-    for _ in range(20 if thorough else 3):
-        process_families(ck, rng, int(rng.choice([300, 1000, 3000])) if not thorough else int(rng.choice([1000, 5000, 20000])))
+    for _ in range(24 if thorough else 6):
+        process_families(ck, int(rng.integers(0, 2**31)), int(rng.choice([300, 1000, 3000])) if not thorough else int(rng.choice([1000, 5000, 20000])))
 
 
 def replay(ck, payload):
     case = payload["case"]
     if case.get("part") == "A":
         process(ck, case)
+    elif case.get("part") == "B" and "sub_seed" in case:
+        process_families(ck, case["sub_seed"], case["n"])
     for s, c, d in ck.failures:
         print("oracle:", s, d)
     for k in ck.known_seen:
